@@ -25,7 +25,7 @@ from fractions import Fraction
 import numpy as np
 from hypothesis import strategies as st
 
-from partitura.performance import Performance, PerformedPart, adjust_offsets_w_sustain
+from partitura.performance import Performance, PerformedNote, PerformedPart, adjust_offsets_w_sustain
 from pbt.core import Outcome, SubCheck, SutRaised, call
 from pbt.ref import c14_pedal as ref
 
@@ -63,8 +63,34 @@ def mk_note_dicts(spec, tf, notes=None):
             d["note_off_tick"] = on + dur
         if spec.get("pre_sound_off"):
             d["sound_off"] = d["note_off"]
+        # keys with a default (velocity 60, channel 1, id None) left out
+        for key in spec.get("omit_keys", []):
+            d.pop(key, None)
         out.append(d)
     return out
+
+
+def mk_part(spec, tf, threshold, notes=None):
+    """PerformedPart for the case: notes as dicts or as PerformedNote objects; arguments that hold their
+    documented default (threshold 64, ppq 480, mpq 500000, no controls) left out when the case asks for it."""
+    nd = mk_note_dicts(spec, tf, notes)
+    if spec.get("note_form") == "PerformedNote":
+        nd = [PerformedNote(d) for d in nd]
+    cd = mk_control_dicts(spec["controls"], tf)
+    kw = dict(controls=cd, sustain_pedal_threshold=threshold, ppq=spec["ppq"], mpq=spec["mpq"])
+    if spec.get("omit_defaults"):
+        if threshold == 64:
+            del kw["sustain_pedal_threshold"]
+        if spec["ppq"] == 480:
+            del kw["ppq"]
+        if spec["mpq"] == 500000:
+            del kw["mpq"]
+        if not cd:
+            if spec.get("controls_none"):
+                kw["controls"] = None
+            else:
+                del kw["controls"]
+    return call(PerformedPart, nd, **kw)
 
 
 def mk_control_dicts(ctl, tf):
@@ -189,8 +215,19 @@ def check_note_array(o, pp, note_dicts, ppq, mpq, where):
     return na
 
 
-def check_rebuild(o, pp, na, note_dicts, where):
+REBUILD_FIELDS = {
+    "all": None,
+    "mandatory": ("pitch", "onset_sec", "duration_sec", "velocity"),
+    "no-id": ("pitch", "onset_sec", "duration_sec", "velocity", "onset_tick", "duration_tick", "track", "channel"),
+    "no-track-channel": ("pitch", "onset_sec", "duration_sec", "velocity", "id"),
+}
+
+
+def check_rebuild(o, pp, na, note_dicts, where, fields=None):
     """from_note_array(note_array()) keeps pitches, velocities, onsets, sounding ends. Returns the new part."""
+    if fields is not None:
+        # a note array reduced to a documented subset of its fields (mandatory: pitch, onset_sec, duration_sec, velocity)
+        na = na[[f for f in na.dtype.names if f in fields]]
     try:
         pp2 = call(PerformedPart.from_note_array, na)
     except SutRaised as e:
@@ -204,8 +241,9 @@ def check_rebuild(o, pp, na, note_dicts, where):
         so = float(pp.notes[i]["sound_off"])
         if int(n2["midi_pitch"]) != int(d["midi_pitch"]) or int(n2["pitch"]) != int(d["midi_pitch"]):
             o.add("rebuilt-part-pitch-wrong", i=i, got=int(n2["midi_pitch"]), expected=int(d["midi_pitch"]), where=where)
-        if int(n2["velocity"]) != int(d["velocity"]):
-            o.add("rebuilt-part-velocity-wrong", i=i, got=int(n2["velocity"]), expected=int(d["velocity"]), where=where)
+        vel = int(d["velocity"]) if "velocity" in d else int(pp.notes[i]["velocity"])  # default velocity of the part itself
+        if int(n2["velocity"]) != vel:
+            o.add("rebuilt-part-velocity-wrong", i=i, got=int(n2["velocity"]), expected=vel, where=where)
         if not close32(n2["note_on"], d["note_on"]):
             o.add("rebuilt-part-onset-wrong", i=i, got=float(n2["note_on"]), expected=float(d["note_on"]), where=where)
         if not close32(n2["sound_off"], so):
@@ -247,9 +285,30 @@ def oracle_model(spec):
     o.cls("tick-keys", bool(spec.get("tick_keys")) and spec["unit"] == "tick")
     o.nontrivial = any(e["extended"] for e in exp0) or ref.any_overlap(mnotes)
 
+    o.cls("notes-as-PerformedNote", spec.get("note_form") == "PerformedNote")
+    o.cls("note-keys-omitted", bool(spec.get("omit_keys")))
+    if spec.get("omit_defaults"):
+        o.cls("defaults-omitted")
+        o.cls("default-omitted:threshold", thr == 64)
+        o.cls("default-omitted:ppq-mpq", ppq == 480 and mpq == 500000)
+        o.cls("default-omitted:controls", not ctl_dicts)
+
     def fresh(threshold):
-        return call(PerformedPart, mk_note_dicts(spec, tf), controls=mk_control_dicts(spec["controls"], tf),
-                    sustain_pedal_threshold=threshold, ppq=ppq, mpq=mpq)
+        return mk_part(spec, tf, threshold)
+
+    # the pedal function itself on plain dictionaries (as the loaders hold them before building a part)
+    if note_dicts:
+        nd = mk_note_dicts(spec, tf)
+        cd = mk_control_dicts(spec["controls"], tf)
+        o.cls("pedal-function-on-plain-dicts")
+        try:
+            if thr == 64 and spec.get("omit_defaults"):
+                call(adjust_offsets_w_sustain, nd, cd)
+            else:
+                call(adjust_offsets_w_sustain, nd, cd, thr)
+            judge(o, [float(d["sound_off"]) for d in nd], mnotes, mctl, thr, "plain dicts")
+        except SutRaised as e:
+            o.add(e.kind, text=e.text, stage="adjust_offsets_w_sustain on dicts", where="plain dicts")
 
     try:
         pp = fresh(thr)
@@ -264,7 +323,9 @@ def oracle_model(spec):
     judge(o, so0, mnotes, mctl, thr, "after construction")
     na = check_note_array(o, pp, note_dicts, ppq, mpq, "after construction")
     if len(na) == len(note_dicts):
-        check_rebuild(o, pp, na, note_dicts, "after construction")
+        rf = spec.get("rebuild_fields", "all")
+        o.cls("rebuild-fields:" + rf)
+        check_rebuild(o, pp, na, note_dicts, "after construction", REBUILD_FIELDS[rf])
 
     by_thr = [(thr, so0)]
     for k, t in enumerate(spec["more"]):
@@ -404,6 +465,8 @@ def _base(draw, tier, allow_overlap=True):
     unit = draw(st.sampled_from([8, 8, 1000, "tick"]))
     ppq = draw(st.one_of(st.sampled_from(PPQS), st.integers(1, 2000)))
     mpq = draw(st.one_of(st.sampled_from(MPQS), st.integers(10000, 5000000)))
+    if draw(st.integers(0, 3)) == 0:
+        ppq, mpq = 480, 500000  # the documented defaults (left out of the call when omit_defaults is drawn)
     if unit == "tick":
         step = draw(st.sampled_from([1, 1, 60, 120, 7]))
     else:
@@ -419,6 +482,12 @@ def _base(draw, tier, allow_overlap=True):
         "controls": draw(_controls(step, thr, 10 if big else 6)),
         "tick_keys": draw(st.booleans()),
         "pre_sound_off": draw(st.integers(0, 4)) == 0,
+        # argument shapes: notes handed over as PerformedNote objects; keys / arguments with a default left out
+        "note_form": draw(st.sampled_from(["dict", "dict", "PerformedNote"])),
+        "omit_keys": draw(st.sampled_from([[], [], [], ["velocity"], ["channel"], ["id"], ["velocity", "channel", "id"]])),
+        "omit_defaults": draw(st.booleans()),
+        "controls_none": draw(st.booleans()),
+        "rebuild_fields": draw(st.sampled_from(["all", "all", "mandatory", "no-id", "no-track-channel"])),
     }
 
 
@@ -448,6 +517,7 @@ def strat_history(draw, tier):
         st.tuples(st.just("ctl"), some_time, st.sampled_from([64, 64, 64, 67]), st.one_of(st.sampled_from([0, 127]), st.integers(0, 127))),
         st.tuples(st.just("ctl"), some_time, st.just(64), st.one_of(st.sampled_from([0, 127]), st.integers(0, 127))),
         st.tuples(st.just("ctl_clear")),
+        st.tuples(st.just("note_off"), st.integers(0, 9), st.integers(0, 12).map(lambda x: x * step)),
     )
     spec["ops"] = [list(x) for x in draw(st.lists(op, min_size=1, max_size=maxlen))]
     return spec
@@ -461,20 +531,20 @@ def oracle_history(spec):
     cur_ctl = mk_control_dicts(spec["controls"], tf)  # model copy of pp.controls
     thr = spec["thr"]
     try:
-        pp = call(PerformedPart, mk_note_dicts(spec, tf), controls=mk_control_dicts(spec["controls"], tf),
-                  sustain_pedal_threshold=thr, ppq=ppq, mpq=mpq)
+        pp = mk_part(spec, tf, thr)
     except SutRaised as e:
         o.add(e.kind, text=e.text, stage="construct", threshold=thr)
         o.cls("history-construction-raised")
         return o
     snap_ctl = [dict(c) for c in cur_ctl]  # controls in force at the last (re)computation
+    snap_notes = [dict(d) for d in cur_notes]  # notes as they were at the last (re)computation
     seen = [(thr, read_sound_offs(pp))]    # (threshold, sound_offs) under snap_ctl
-    n_set = n_mut = 0
+    n_set = n_mut = n_note_mut = 0
     extended_seen = False
     stale = False
 
     def model():
-        return model_notes(cur_notes), model_controls(snap_ctl)
+        return model_notes(snap_notes), model_controls(snap_ctl)
 
     mn, mc = model()
     exp = judge(o, seen[0][1], mn, mc, thr, "after construction")
@@ -489,6 +559,8 @@ def oracle_history(spec):
                 t = op[1]
                 if stale:
                     snap_ctl = [dict(c) for c in cur_ctl]
+                    o.cls("set-after-notes-changed", any(a["note_off"] != b["note_off"] for a, b in zip(snap_notes, cur_notes)))
+                    snap_notes = [dict(d) for d in cur_notes]
                     seen = []
                     stale = False
                     o.cls("set-after-controls-changed")
@@ -530,6 +602,7 @@ def oracle_history(spec):
                             o.add("rebuilt-part-release-differs-from-sounding-end", i=i, note_off=float(n2["note_off"]),
                                   sound_off=float(n2["sound_off"]), where=where)
                     pp, cur_notes, cur_ctl, snap_ctl = pp2, new_notes, [], []
+                    snap_notes = [dict(d) for d in cur_notes]
                     ppq, mpq = pp2.ppq, pp2.mpq
                     thr = pp2.sustain_pedal_threshold
                     seen = [(thr, read_sound_offs(pp2))]
@@ -541,6 +614,19 @@ def oracle_history(spec):
                 cur_ctl.append(c)
                 stale = True
                 n_mut += 1
+            elif kind == "note_off":
+                # a release moved on the live part through PerformedNote.__setitem__ (as the MIDI importer does after
+                # construction); the sounding ends stay as they are until the next threshold assignment
+                if cur_notes:
+                    i = op[1] % len(cur_notes)
+                    new_off = float(cur_notes[i]["note_on"]) + float(tf(op[2])) - float(tf(0))
+                    call(pp.notes[i].__setitem__, "note_off", new_off)
+                    cur_notes[i] = dict(cur_notes[i], note_off=new_off)
+                    cur_notes[i].pop("note_off_tick", None)
+                    cur_notes[i].pop("sound_off", None)  # a fresh part computes it from the new release
+                    stale = True
+                    n_mut += 1
+                    n_note_mut += 1
             elif kind == "ctl_clear":
                 del pp.controls[:]
                 cur_ctl = []
@@ -555,7 +641,8 @@ def oracle_history(spec):
     mn = model_notes(cur_notes)
     o.cls("overlap-equal-pitch", ref.any_overlap(mn))
     o.cls("history-with-two-assignments", n_set >= 2)
-    o.cls("history-mutates-controls", n_mut > 0)
+    o.cls("history-mutates-controls", n_mut > n_note_mut)
+    o.cls("history-moves-a-release", n_note_mut > 0)
     o.nontrivial = n_set >= 1 and extended_seen
     o.cls("history-nontrivial", o.nontrivial)
     return o
@@ -575,7 +662,8 @@ def _known_overlap_history(spec, disc):
 # ------------------------------------------------------------------ sub-check C: Performance
 @st.composite
 def strat_performance(draw, tier):
-    nparts = draw(st.integers(1, 4))
+    container = draw(st.sampled_from(["list", "list", "list", "tuple", "tuple", "bare"]))
+    nparts = 1 if container == "bare" else draw(st.integers(1, 4))
     trk = st.one_of(st.none(), st.integers(0, 3), st.integers(0, 1))
     parts = []
     for _ in range(nparts):
@@ -591,7 +679,14 @@ def strat_performance(draw, tier):
         prog = draw(st.lists(st.tuples(st.integers(0, 30), st.integers(0, 127), trk), min_size=0, max_size=2))
         parts.append({"notes": clean, "controls": [list(c) for c in ctl], "programs": [list(p) for p in prog]})
     return {"unit": 8, "ppq": 480, "mpq": 500000, "parts": parts, "ensure": draw(st.integers(0, 5)) != 0,
-            "thr": draw(_threshold())}
+            "thr": draw(_threshold()),
+            # how the parts are handed over: list, tuple, or (one part) the bare PerformedPart as the match importer does;
+            # positionally or by keyword; ensure_unique_tracks left out when True (its default)
+            "container": container,
+            "keyword": draw(st.booleans()),
+            "omit_ensure": draw(st.booleans()),
+            # renumber a second time on the finished performance
+            "sanitize_again": draw(st.integers(0, 3)) == 0}
 
 
 def oracle_performance(spec):
@@ -622,7 +717,29 @@ def oracle_performance(spec):
             old.append((pi, "control", k, c[3]))
         for k, c in enumerate(p["programs"]):
             old.append((pi, "program", k, c[2]))
-    perf = call(Performance, pps, ensure_unique_tracks=spec["ensure"])
+    container = spec.get("container", "list")
+    if container == "bare" and len(pps) == 1:
+        arg = pps[0]
+        o.cls("given:bare-part")
+    elif container == "tuple":
+        arg = tuple(pps)
+        o.cls("given:tuple")
+    else:
+        arg = list(pps)
+        o.cls("given:list")
+    kw = {}
+    if not (spec["ensure"] and spec.get("omit_ensure")):
+        kw["ensure_unique_tracks"] = spec["ensure"]
+    else:
+        o.cls("ensure_unique_tracks-omitted")
+    if spec.get("keyword"):
+        perf = call(Performance, performedparts=arg, id="perf", **kw)
+    else:
+        perf = call(Performance, arg, **kw)
+    if spec.get("sanitize_again") and spec["ensure"]:
+        # the renumbering applied to its own result keeps every claim (unique, parts not mixed)
+        o.cls("renumbered-twice")
+        call(perf.sanitize_track_numbers)
     if len(perf.performedparts) != len(pps) or any(a is not b for a, b in zip(perf.performedparts, pps)):
         o.add("performance-parts-differ-from-given-parts")
         return o
@@ -717,14 +834,18 @@ SUBCHECKS = [
         oracle_model,
         strategy=strat_model,
         budget={"quick": 1000, "thorough": 30000},
-        rule="0-6 notes over 1-3 pitches (sequential lines per pitch or free placement with overlaps, zero-length notes, shuffled), 0-6 pedal events "
+        rule="notes as dicts or PerformedNote objects, with/without the keys that have defaults; constructor arguments at their default left out; the pedal function also on plain dicts; rebuild from the full note array or a documented subset of its fields; 0-6 notes over 1-3 pitches (sequential lines per pitch or free placement with overlaps, zero-length notes, shuffled), 0-6 pedal events "
              "(values around the threshold, before/after the notes, duplicates 1/12) interleaved with other controllers, threshold + up to 3 re-assigned "
              "thresholds, ppq/mpq, seconds on a 1/8 or 1/1000 grid or derived from ticks; every sound_off compared with the independent pedal model, "
              "re-assignment == fresh part, monotone, note_array and from_note_array compared with exact arithmetic; "
              "non-trivial = a pedal-down interval covers at least one release, or equal pitches overlap",
         known={"overlap-clip": _known_overlap, "empty-rebuild": _known_empty_rebuild},
         floors={"pedal-down-covers-release": 0.15, "overlap-equal-pitch": 0.05, "event-exactly-at-release": 0.05,
-                "restrike-ends-note": 0.02, "zero-length-note": 0.1, "controls-unsorted": 0.03, "threshold-127": 0.05},
+                "restrike-ends-note": 0.02, "zero-length-note": 0.1, "controls-unsorted": 0.03, "threshold-127": 0.05,
+                "notes-as-PerformedNote": 0.15, "note-keys-omitted": 0.2, "defaults-omitted": 0.3,
+                "default-omitted:threshold": 0.03, "default-omitted:ppq-mpq": 0.04, "default-omitted:controls": 0.02,
+                "pedal-function-on-plain-dicts": 0.8, "rebuild-fields:mandatory": 0.1, "rebuild-fields:no-id": 0.07,
+                "rebuild-fields:no-track-channel": 0.07},
     ),
     SubCheck(
         "threshold_histories",
@@ -732,18 +853,18 @@ SUBCHECKS = [
         strategy=strat_history,
         budget={"quick": 60, "thorough": 1500},
         rule="histories of up to 12 (30) operations on one live part: assign threshold, read sound_offs, note_array, rebuild from the note array "
-             "(optionally continuing with the rebuilt part), append pedal/other control events, clear controls; model and fresh part compared after "
+             "(optionally continuing with the rebuilt part), append pedal/other control events, clear controls, move a release through PerformedNote.__setitem__; model and fresh part compared after "
              "every step; non-trivial = at least one assignment and a note extended by the pedal at some step",
         known={"overlap-clip": _known_overlap_history, "empty-rebuild": _known_empty_rebuild},
-        floors={"history-with-two-assignments": 0.2},
+        floors={"history-with-two-assignments": 0.2, "history-moves-a-release": 0.1, "set-after-notes-changed": 0.05},
     ),
     SubCheck(
         "performance_tracks",
         oracle_performance,
         strategy=strat_performance,
         budget={"quick": 150, "thorough": 3000},
-        rule="1-4 parts with notes/controls/programs on tracks 0-3 or without track; renumbering injective on (part, old track), never shared between "
+        rule="1-4 parts (list, tuple or a bare PerformedPart; positional or keyword; ensure_unique_tracks omitted; renumbering applied a second time) with notes/controls/programs on tracks 0-3 or without track; renumbering injective on (part, old track), never shared between "
              "parts, nothing else changed, num_tracks, concatenated note array is the sorted union; non-trivial = several parts with renumbering on",
-        floors={"several-parts": 0.4},
+        floors={"several-parts": 0.4, "given:bare-part": 0.08, "given:tuple": 0.15, "ensure_unique_tracks-omitted": 0.15, "renumbered-twice": 0.08},
     ),
 ]
